@@ -24,6 +24,7 @@ pub struct OracleState {
     pub c03: crate::c03::State,
     pub c04: crate::c04::State,
     pub c14: crate::c14::State,
+    pub c11: crate::c11::State,
 }
 
 /// Task names that recur for ever at short intervals; the pump does not
@@ -43,6 +44,8 @@ pub fn pump_stepwise(r: &mut Runner) -> Guarded<bool> {
     let mut stable = 0;
     let mut rounds = 0;
     let mut tasks = 0u64;
+    // Names of the tasks that ran since the observable state last changed.
+    let mut ran_since_change: BTreeSet<String> = BTreeSet::new();
     loop {
         // Run every due task, one at a time.
         loop {
@@ -63,6 +66,11 @@ pub fn pump_stepwise(r: &mut Runner) -> Guarded<bool> {
                 if claimed {
                     any = true;
                     tasks += 1;
+                    let name = hooks::state().last_task.clone();
+                    ran_since_change.insert(
+                        name.split_once('-').map(|x| x.1.to_string())
+                            .unwrap_or(name)
+                    );
                     r.ext.tasks_run += 1;
                     after_task(r, idx);
                     if r.dead.is_some() {
@@ -82,6 +90,7 @@ pub fn pump_stepwise(r: &mut Runner) -> Guarded<bool> {
         // Anything due soon?
         let now_ms = seams::now_ns() as i128 / 1_000_000;
         let mut next: Option<i128> = None;
+        let mut waiting: BTreeSet<String> = BTreeSet::new();
         for inst in &r.world.insts {
             if !inst.is_up() {
                 continue
@@ -93,6 +102,7 @@ pub fn pump_stepwise(r: &mut Runner) -> Guarded<bool> {
                     continue
                 }
                 if due <= now_ms + horizon_ms {
+                    waiting.insert(name.clone());
                     next = Some(match next {
                         Some(n) => std::cmp::min(n, due),
                         None => due
@@ -102,14 +112,22 @@ pub fn pump_stepwise(r: &mut Runner) -> Guarded<bool> {
         }
         let Some(due) = next else { return Guarded::Ok(true) };
         let digest = r.world.digest();
+        if std::env::var_os("VERIF_DEBUG_PUMP").is_some() {
+            eprintln!(
+                "pump round {rounds} now {now_ms} next due {due} stable \
+                 {stable} same {}", digest == last_digest
+            );
+        }
         if digest == last_digest {
             stable += 1;
         }
         else {
             stable = 0;
             last_digest = digest;
+            ran_since_change.clear();
         }
-        if stable >= 2 {
+        // Only tasks that already ran without effect are left: retries.
+        if stable >= 2 && waiting.iter().all(|n| ran_since_change.contains(n)) {
             // Only unproductive retries are left.
             r.stat("pump.retry_loop_cut");
             return Guarded::Ok(true)
@@ -135,6 +153,10 @@ pub fn after_task(r: &mut Runner, _inst: usize) {
     if r.oracles.c14 {
         crate::c14::after_task(r);
     }
+    if r.oracles.c11 {
+        let task = hooks::state().last_task.clone();
+        crate::c11::observe(r, &format!("after task {task}"));
+    }
 }
 
 /// Instant invariants, evaluated after every API operation.
@@ -150,6 +172,9 @@ pub fn after_op(r: &mut Runner) {
     }
     if r.oracles.c14 {
         crate::c14::instant(r);
+    }
+    if r.oracles.c11 {
+        crate::c11::observe(r, "after the operation");
     }
 }
 
